@@ -39,14 +39,14 @@ func init() {
 const hookStart = 100 // pseudo yield point: a client call is about to start
 
 type gor struct {
-	evSince   int    // OnEvict callbacks run by this goroutine since its last vpClearShard
-	lastShard uint64 // shard index observed at vpClearShard
-	rec  *callRec // client: the call in progress
-	name string
-	park chan struct{}
-	at   int
-	done bool
-	busy bool // client: a call is in progress
+	evSince   int      // OnEvict callbacks run by this goroutine since its last vpClearShard
+	lastShard uint64   // shard index observed at vpClearShard
+	rec       *callRec // client: the call in progress
+	name      string
+	park      chan struct{}
+	at        int
+	done      bool
+	busy      bool // client: a call is in progress
 }
 
 type event struct {
